@@ -199,7 +199,7 @@ func runC17(c *Ctx) {
 			one("tag-grammar-random", []byte(sb.String()))
 		}
 	}
-	frag := []string{"<a x=\n'>", "<a x='", "<a x=\"", "'>", "<!--'>", "<!--\">", "\n\n", "<", ">", "<s>", "<S>", "<s ", "<script>", "</script>", "<SCRIPT x=y>", "<scr", "ipt>", "<!--", "-->", "--!>", "<!-->", "<!--->", "<!---", "<![CDATA[", "]]>", "<!D", "<!d x \">\">", "<?", "?>", "<3", "< ", "<s<s>", "<a title=\"", "\">", "<a title='>'>", "=", "\"", "'", "/", "</s>", "</ s>", "</>", "<>", "s", " ", "\n", "x", "<textarea>", "<TITLE>", "<style", "<xmp/>", "<iframe\n>", "<plaintext>", "<noembed>", "<noframes>", "-", "!", "[", "]"}
+	frag := []string{"<DIV>", "<XMP>", "<Xmp>", "<PRE>", "<Pre>", "<EM>", "<TD>", "<Script>", "<STYLE>", "<a x=\n'>", "<a x='", "<a x=\"", "'>", "<!--'>", "<!--\">", "\n\n", "<", ">", "<s>", "<S>", "<s ", "<script>", "</script>", "<SCRIPT x=y>", "<scr", "ipt>", "<!--", "-->", "--!>", "<!-->", "<!--->", "<!---", "<![CDATA[", "]]>", "<!D", "<!d x \">\">", "<?", "?>", "<3", "< ", "<s<s>", "<a title=\"", "\">", "<a title='>'>", "=", "\"", "'", "/", "</s>", "</ s>", "</>", "<>", "s", " ", "\n", "x", "<textarea>", "<TITLE>", "<style", "<xmp/>", "<iframe\n>", "<plaintext>", "<noembed>", "<noframes>", "-", "!", "[", "]"}
 	n := c.N(60000, 1500000)
 	for i := 0; i < n; i++ {
 		rng := newRng(c.Seed, "c17-raw", i)
